@@ -10,7 +10,10 @@ EXTENDS Integers, Sequences, FiniteSets
 Min2(a, b) == IF a < b THEN a ELSE b
 Max2(a, b) == IF a > b THEN a ELSE b
 \* MapV(g, k) = <<image of g when the first vertex gets visit number k, next free visit number>>
-Tag(p, k) == <<1000 - p[1], k>>            \* reverses the x axis, so that a projected bound needs its corners re-ordered
+\* the tagging function: reverses the x axis (a projected bound needs its corners re-ordered), mixes both input
+\* coordinates into both outputs (not axis-separable: the other diagonal of a bound gives another box) and carries the
+\* number of the call (order, exactly one call per vertex)
+Tag(p, k) == <<1000 - p[1] + 7 * p[2], 100 * k + 2 * p[1] + p[2]>>
 RECURSIVE TagSeq(_, _)
 TagSeq(ps, k) == IF ps = <<>> THEN <<>> ELSE <<Tag(ps[1], k)>> \o TagSeq(Tail(ps), k + 1)
 RECURSIVE TagSeq2(_, _)
